@@ -72,6 +72,10 @@ def outcome(storage: Any, op: tuple, ids: dict) -> tuple:
     except thx.DeadlockAbort:
         raise
     except Exception as e:
+        if "database is locked" in repr(e) or "database is locked" in repr(e.__cause__):
+            from .core import InternalError
+
+            raise InternalError(f"real SQLite lock conflict under an enabled choice: lock model wrong ({e!r})")
         return ("err", type(e).__name__)
 
 
